@@ -221,3 +221,9 @@ def c13(work, tier, seed, replay):
 def c12(work, tier, seed, replay):
     import fam_oidc as fo
     return fo.c12(work, tier, seed)
+
+
+@check("C05")
+def c05(work, tier, seed, replay):
+    import fam_oidc as fo
+    return fo.c05(work, tier, seed)
